@@ -500,3 +500,223 @@ theorem runPhases_none_fresh (F : BodyFn) (P : Project) (g : G) (cfg : Cfg) (s :
 
 end Engine
 end Pytask
+
+/-! ## Complete protocols keep the rows consistent; prefixes of a protocol keep `Inv` -/
+namespace Pytask
+namespace Engine
+
+theorem updateStates_fs (P : Project) (g : G) (w : World) (t : Nat) (vs : List Nat) : (updateStates P g w t vs).1.fs = w.fs := by
+  rw [← applySteps_rows]; exact applySteps_onlyRows_fs (rowSteps_onlyRows P w t vs) w
+
+theorem updateStates_other (P : Project) (g : G) (w : World) (t : Nat) (vs : List Nat) (u x : Nat) (hu : u ≠ t) :
+    lookup (updateStates P g w t vs).1.db (tv u, x) = lookup w.db (tv u, x) := by
+  rw [← applySteps_rows]; exact applySteps_onlyRows_other (rowSteps_onlyRows P w t vs) w u x hu
+
+/-- A row written by a completed `update_states_in_database` holds the state the node had then. -/
+theorem updateStates_ok (P : Project) (g : G) (t : Nat) (vs : List Nat) (w : World)
+    (hok : (updateStates P g w t vs).2 = true) :
+    (∀ v ∈ vs, ∃ h, stateOf P w v = some h ∧ lookup (updateStates P g w t vs).1.db (tv t, v) = some h) ∧
+    (∀ x, x ∉ vs → lookup (updateStates P g w t vs).1.db (tv t, x) = lookup w.db (tv t, x)) := by
+  induction vs generalizing w with
+  | nil => exact ⟨fun v hv => (by cases hv), fun x _ => rfl⟩
+  | cons v vs ih =>
+    unfold updateStates at hok ⊢
+    cases hst : stateOf P w v with
+    | none => simp [hst] at hok
+    | some h =>
+      simp only [hst] at hok ⊢
+      have ih' := ih { w with db := insert w.db (tv t, v) h } hok
+      simp only [stateOf_db] at ih'
+      refine ⟨?_, ?_⟩
+      · intro x hx
+        by_cases hxin : x ∈ vs
+        · exact ih'.1 x hxin
+        · rcases List.mem_cons.1 hx with rfl | hx'
+          · refine ⟨h, hst, ?_⟩
+            rw [ih'.2 x hxin]
+            exact lookup_insert_self _ _ _
+          · exact absurd hx' hxin
+      · intro x hx
+        simp only [List.mem_cons, not_or] at hx
+        rw [ih'.2 x hx.2]
+        apply lookup_insert_ne
+        intro heq
+        exact hx.1 (by simpa using congrArg Prod.snd heq)
+
+theorem setupImpl_ne_persisted (P : Project) (g : G) (cfg : Cfg) (s : Sess) (t : TaskSpec) (name : String)
+    (hp : t.persist = false) : setupImpl P g cfg s t name ≠ .persisted := by
+  unfold setupImpl
+  simp only [hp, Bool.false_eq_true, if_false]
+  repeat' split
+  all_goals simp
+
+theorem setupChain_ne_persisted (P : Project) (g : G) (cfg : Cfg) (s : Sess) (t : TaskSpec) (hp : t.persist = false)
+    (order : List String) : setupChain P g cfg s t order ≠ .persisted := by
+  induction order with
+  | nil => simp [setupChain]
+  | cons n ns ih =>
+    unfold setupChain
+    have := setupImpl_ne_persisted P g cfg s t n hp
+    cases hr : setupImpl P g cfg s t n <;> simp only [] <;>
+      first | exact ih | exact absurd hr this | (intro h; cases h)
+
+theorem runPhases_ne_persisted (F : BodyFn) (P : Project) (g : G) (cfg : Cfg) (s : Sess) (t : TaskSpec)
+    (hp : t.persist = false) : (runPhases F P g cfg s t).1 ≠ .persisted := by
+  unfold runPhases
+  have := setupChain_ne_persisted P g cfg s t hp Generated.setupOrder
+  cases hsc : setupChain P g cfg s t Generated.setupOrder <;> simp only [] <;> try (first | exact absurd hsc this | (intro h; cases h))
+  by_cases hdry : cfg.dry = true
+  · simp [hdry]
+  · simp only [hdry, Bool.false_eq_true, if_false]
+    by_cases h1 : (runBody F t s.w.fs).2 = true <;>
+      by_cases h2 : (t.prods.any fun p => (lookup (runBody F t s.w.fs).1 p).isNone) = true <;> simp [h1, h2]
+
+theorem runPhases_db (F : BodyFn) (P : Project) (g : G) (cfg : Cfg) (s : Sess) (t : TaskSpec) :
+    (runPhases F P g cfg s t).2.w.db = s.w.db := by
+  rw [← applySteps_phases]; exact applySteps_onlyWrites_db (phaseSteps_onlyWrites F P g cfg s t) s.w
+
+theorem runPhases_none_not_dry (F : BodyFn) (P : Project) (g : G) (cfg : Cfg) (s : Sess) (t : TaskSpec)
+    (h : (runPhases F P g cfg s t).1 = .none) : cfg.dry = false := by
+  unfold runPhases at h
+  cases hsc : setupChain P g cfg s t Generated.setupOrder <;> simp only [hsc] at h <;> try (exact Raised.noConfusion h)
+  cases hd : cfg.dry
+  · rfl
+  · simp [hd] at h
+
+/-- Lemma A′: a complete protocol of `spec` either aborts the build (`IntegrityError` in `update_states_in_database`) or leaves
+every task's row set consistent. -/
+theorem rc_protocol {F : BodyFn} {P : Project} {g : G} (hwf : WF P g) (cfg : Cfg) (s : Sess) (spec : TaskSpec)
+    (hspec : spec ∈ P.tasks) (hrc : RC F P g s.w.db) :
+    (protocol F P g cfg s spec).crashed = true ∨ RC F P g (protocol F P g cfg s spec).w.db := by
+  have hnp := runPhases_ne_persisted F P g cfg s spec (hwf.noPersist spec hspec)
+  have hdb := runPhases_db F P g cfg s spec
+  unfold protocol
+  simp only []
+  cases hr : (runPhases F P g cfg s spec).1
+  case persisted => exact absurd hr hnp
+  case none =>
+    have hdry := runPhases_none_not_dry F P g cfg s spec hr
+    have hfresh := runPhases_none_fresh F P g cfg s spec (hwf.nodup spec hspec) (hwf.disj spec hspec) (hwf.honest spec hspec) hr
+    simp only [processReport, recordStates, hdry, Bool.false_eq_true, if_false]
+    generalize hw1 : (runPhases F P g cfg s spec).2 = s1 at hdb hfresh
+    cases hok : (updateStates P g s1.w spec.id (neighbours g spec.id)).2
+    · left; simp
+    · right
+      simp only [if_true]
+      obtain ⟨hrows, _⟩ := updateStates_ok P g spec.id (neighbours g spec.id) s1.w hok
+      intro u hu
+      by_cases heq : u = spec
+      · subst heq
+        intro _ pi hpi
+        have row_eq : ∀ v ∈ neighbours g u.id,
+            lookup (updateStates P g s1.w u.id (neighbours g u.id)).1.db (tv u.id, v) = stateOf P s1.w v := by
+          intro v hv
+          obtain ⟨x, h1, h2⟩ := hrows v hv
+          rw [h1, h2]
+        rw [row_eq _ (hwf.prods u hu _ (mem_prods_of_mem_zipIdx hpi)), stateOf_nv, hfresh pi hpi,
+          row_eq _ (tv_mem_neighbours g u.id), stateOf_tv P _ u.id u (hwf.find u hu)]
+        congr 2
+        apply List.map_congr_left
+        intro d hd
+        rw [row_eq _ (hwf.deps u hu d hd), stateOf_nv]
+      · have hid : u.id ≠ spec.id := fun hid => heq (wf_id_inj hwf hu hspec hid)
+        exact RowsConsistent.congr (fun x => by rw [updateStates_other _ _ _ _ _ _ _ hid, hdb]) (hrc u hu)
+  all_goals (right; simp only [processReport]; rw [hdb]; exact hrc)
+
+end Engine
+end Pytask
+
+namespace Pytask
+namespace Engine
+
+/-- Lemma B: `Inv` holds after every prefix of the atomic updates of one protocol. -/
+theorem inv_protocol_prefix {F : BodyFn} {P : Project} {g : G} (hwf : WF P g) (cfg : Cfg) (s : Sess) (spec : TaskSpec)
+    (hspec : spec ∈ P.tasks) (hrc : RC F P g s.w.db) (k : Nat) :
+    Inv F P g (applySteps s.w ((protocolSteps F P g cfg s spec).take k)) := by
+  unfold protocolSteps
+  simp only []
+  rw [List.take_append, applySteps_append]
+  have hph := phaseSteps_onlyWrites F P g cfg s spec
+  by_cases hk : k ≤ (phaseSteps F P g cfg s spec).length
+  · have : k - (phaseSteps F P g cfg s spec).length = 0 := by omega
+    rw [this, List.take_zero, applySteps_nil]
+    exact inv_after_writes hwf s.w hrc (hph.take k)
+  · rw [List.take_of_length_le (by omega), applySteps_phases]
+    have hdb := runPhases_db F P g cfg s spec
+    have hrc1 : RC F P g (runPhases F P g cfg s spec).2.w.db := by rw [hdb]; exact hrc
+    by_cases hr : (runPhases F P g cfg s spec).1 = .none
+    · have hfresh := runPhases_none_fresh F P g cfg s spec (hwf.nodup spec hspec) (hwf.disj spec hspec) (hwf.honest spec hspec) hr
+      exact inv_after_rows hwf _ hrc1 spec hspec hfresh ((reportSteps_onlyRows P g cfg _ spec _).take _)
+    · have hnp := runPhases_ne_persisted F P g cfg s spec (hwf.noPersist spec hspec)
+      rw [reportSteps_other _ _ _ _ _ _ hr hnp, List.take_nil, applySteps_nil]
+      exact inv_of_rc hwf _ hrc1
+
+theorem loopSteps_crashed (F : BodyFn) (P : Project) (g : G) (cfg : Cfg) (so : Sorter) (s : Sess) (picks : List Nat)
+    (h : s.crashed = true) : loopSteps F P g cfg so s picks = [] := by
+  cases picks with
+  | nil => rfl
+  | cons t ts => unfold loopSteps; simp [h]
+
+theorem mem_of_find? {P : Project} {t : Nat} {spec : TaskSpec} (h : Project.find? P t = some spec) : spec ∈ P.tasks := by
+  unfold Project.find? at h
+  exact List.mem_of_find?_eq_some h
+
+/-- `Inv` after every prefix of the atomic updates of a build loop started with consistent rows. -/
+theorem inv_loop_prefix {F : BodyFn} {P : Project} {g : G} (hwf : WF P g) (cfg : Cfg) :
+    ∀ (picks : List Nat) (so : Sorter) (s : Sess), RC F P g s.w.db → ∀ k,
+      Inv F P g (applySteps s.w ((loopSteps F P g cfg so s picks).take k))
+  | [], so, s, hrc, k => by
+    simp only [loopSteps, List.take_nil, applySteps_nil]
+    exact inv_of_rc hwf _ hrc
+  | t :: ts, so, s, hrc, k => by
+    unfold loopSteps
+    split
+    · simp only [List.take_nil, applySteps_nil]; exact inv_of_rc hwf _ hrc
+    split
+    · simp only [List.take_nil, applySteps_nil]; exact inv_of_rc hwf _ hrc
+    split
+    · simp only [List.take_nil, applySteps_nil]; exact inv_of_rc hwf _ hrc
+    rename_i spec hfind
+    have hspec := mem_of_find? hfind
+    rw [List.take_append, applySteps_append]
+    by_cases hk : k ≤ (protocolSteps F P g cfg s spec).length
+    · have : k - (protocolSteps F P g cfg s spec).length = 0 := by omega
+      rw [this, List.take_zero, applySteps_nil]
+      exact inv_protocol_prefix hwf cfg s spec hspec hrc k
+    · rcases rc_protocol hwf cfg s spec hspec hrc with hcr | hrc'
+      · rw [loopSteps_crashed _ _ _ _ _ _ _ hcr, List.take_nil, applySteps_nil]
+        exact inv_protocol_prefix hwf cfg s spec hspec hrc k
+      · rw [List.take_of_length_le (by omega), applySteps_protocol]
+        exact inv_loop_prefix hwf cfg ts _ _ hrc' _
+
+/-- Consistency of the rows survives a complete build loop (unless the loop aborted in `update_states_in_database`). -/
+theorem rc_loop {F : BodyFn} {P : Project} {g : G} (hwf : WF P g) (cfg : Cfg) :
+    ∀ (picks : List Nat) (so : Sorter) (s : Sess) (so' : Sorter) (s' : Sess), RC F P g s.w.db →
+      buildLoop F P g cfg so s picks = .ok (so', s') → s'.crashed = true ∨ RC F P g s'.w.db
+  | [], so, s, so', s', hrc, h => by
+    simp only [buildLoop, Except.ok.injEq, Prod.mk.injEq] at h
+    obtain ⟨_, rfl⟩ := h
+    exact Or.inr hrc
+  | t :: ts, so, s, so', s', hrc, h => by
+    unfold buildLoop at h
+    split at h
+    · cases h
+    split at h
+    · cases h
+    split at h
+    · cases h
+    rename_i spec hfind
+    rcases rc_protocol hwf cfg s spec (mem_of_find? hfind) hrc with hcr | hrc'
+    · -- the next iteration refuses to continue; only `ts = []` is accepted
+      cases ts with
+      | nil =>
+        simp only [buildLoop, Except.ok.injEq, Prod.mk.injEq] at h
+        obtain ⟨_, rfl⟩ := h
+        exact Or.inl hcr
+      | cons u us =>
+        unfold buildLoop at h
+        simp [hcr] at h
+    · exact rc_loop hwf cfg ts _ _ so' s' hrc' h
+
+end Engine
+end Pytask
